@@ -123,6 +123,12 @@ def truth_static(t: T) -> bool:
         return all(truth_static(a) for a in t.args[0])
     if t.kind == "bool":
         return all(truth_static(a) for a in t.args[1])
+    if t.kind == "un" and t.args[0] == "not":
+        return truth_static(t.args[1])
+    if t.kind == "cmp" and t.args[0] in ("is", "isnot"):
+        return True   # identity tests never look at array values
+    if t.kind == "call" and t.args[0].kind == "ext" and t.args[0].args[0] in ("builtins.len", "builtins.bool", "builtins.isinstance") and t.args[1]:
+        return t.args[0].args[0] in ("builtins.isinstance", "builtins.len") or truth_static(t.args[1][0])
     return False
 
 
